@@ -218,8 +218,14 @@ class StoredStep(Scenario):
             val_d = [h.get_data("lbl")[0] for h in holes]
         total = sum(sizes)
         with self.engine(cx) as X:
-            starts, szs, vals = _install_state(cx, X, g, "lbl", None, total, "")
-            assume_not_ndv(cx, vals)
+            if op == "rename_hole":
+                # nothing but the rename happens in this session: the stored arrays are the ones the creation wrote
+                szs = list(sizes)
+                starts = [sum(sizes[:k]) for k in range(len(sizes))]
+                vals = [float(p + 5.0 + 10.0 * k) for k in range(len(sizes)) for p in range(sizes[k])]
+            else:
+                starts, szs, vals = _install_state(cx, X, g, "lbl", None, total, "")
+                assume_not_ndv(cx, vals)
             newv = None
             if op == "update":
                 newv = [cx.real(f"n{p}") for p in range(szs[target])]
@@ -227,11 +233,13 @@ class StoredStep(Scenario):
                 val_d[target].values = mk_array(X, newv, (szs[target],), "float64")
             elif op == "remove_data":
                 ws.remove_entity(val_d[target])
+            elif op == "rename_hole":           # an attribute of the hole's record, nothing else in the session
+                holes[target].name = "h renamed"
             else:
                 ws.remove_entity(holes[target])
             expect = {}
             for k, h in enumerate(holes):
-                if k == target and op != "update":
+                if k == target and op not in ("update", "rename_hole"):
                     continue
                 expect[h.uid] = newv if (k == target and op == "update") else _old_values(starts, szs, vals, k)
             gone = as_str_if_uuid(holes[target].uid).encode() if op == "remove_hole" else None
@@ -598,7 +606,8 @@ def scenarios(tier, seed):
         S += [StoredStep(sizes=[2, 1, 1], target=0, op="update"), StoredStep(sizes=[1, 2], target=1, op="remove_data"),
               StoredStep(sizes=[2, 0, 1], target=0, op="remove_hole"),
               StoredStep(sizes=[1, 2, 1], target=1, op="remove_hole", reopen_first=True),
-              StoredStep(sizes=[2, 1], target=0, op="update", reopen_first=True)]
+              StoredStep(sizes=[2, 1], target=0, op="update", reopen_first=True),
+              StoredStep(sizes=[2, 1], target=1, op="rename_hole", reopen_first=True), StoredStep(sizes=[1, 2], target=0, op="rename_hole")]
         S += [CopyGroupThenEdit(sizes=[2, 2, 1], target=0, op="update"), CopyGroupThenEdit(sizes=[1, 2, 2], target=1, op="remove")]
         S += [AddTables(sizes=[1, 2], target=0, rows=2, kind="interval"), AddTables(sizes=[2, 1], target=1, rows=1, kind="interval"),
               AddTables(sizes=[1, 1], target=0, rows=2, kind="depth")]
@@ -619,7 +628,7 @@ def scenarios(tier, seed):
                 S.append(RemoveHole(sizes=sz, target=tgt, via_parent=True))
         for sz in ([2, 1, 1], [1, 2], [2, 0, 1], [1, 1, 1, 1]):
             for tgt in range(len(sz)):
-                for op in ("update", "remove_data", "remove_hole"):
+                for op in ("update", "remove_data", "remove_hole", "rename_hole"):
                     for rf in (False, True):
                         for v in ((None,) if len(sz) != 2 else (2.0, 2.1)):
                             S.append(StoredStep(sizes=sz, target=tgt, op=op, reopen_first=rf, version=v))
